@@ -58,7 +58,7 @@ def check(tier, seed):
     def on_result(j, r, st, det, io):
         a = exctab_audit(r["dump"])
         if a is None or st in ("no-run", "compile-crash"):
-            return st in ("no-run", "compile-crash", "skipped-ffi")
+            return st in ("no-run", "compile-crash", "skipped-ffi", "impl-timeout", "model-timeout")
         if a == "":
             audits["ok"] += 1
         else:
